@@ -438,6 +438,53 @@ func (g *Gen) DriveC01() {
 		g.Emit("history/replay", SessionSpec{Dir: dir, Store0: g.Store0(g.R.Intn(3)), Runs: runs, Reuse: g.R.Intn(2) == 0})
 	}
 
+	// histories through long-lived handlers while the registered-key directory changes between runs: the key of
+	// the login name is rotated, the user is deregistered, the file becomes unparsable, and registered again
+	for i := 0; i < c.N(40, 600); i++ {
+		logname := LogNames[g.R.Intn(len(LogNames))]
+		user, other := users[g.R.Intn(len(users))], users[(1+g.R.Intn(len(users)-1))%len(users)]
+		if other == user {
+			other = users[(g.R.Intn(len(users))+1)%len(users)]
+		}
+		st := core.Pick(g.R, 1, 2, 8)
+		dir := g.addBystanders(g.DirFor(logname, st, user, other), logname)
+		h := []HandlerSpec{g.Regular(nil, FullKeyIDs())}
+		var runs []RunSpec
+		nruns := 2 + g.R.Intn(4)
+		holder := user // whose key the requester's agent signs with
+		for k := 0; k < nruns; k++ {
+			r := g.honestRun(logname, holder, h, []SOutSpec{g.MostlyGoodOutcome()})
+			if k > 0 && g.R.Intn(3) > 0 {
+				switch g.R.Intn(5) {
+				case 0: // rotated: the name now belongs to another key; the requester still holds the old one
+					r.Dir = g.addBystanders(g.DirFor(logname, core.Pick(g.R, 1, 2, 6), other, other), logname)
+				case 1: // deregistered
+					r.Dir, r.DirSet = g.addBystanders(nil, logname), true
+				case 2: // unparsable now
+					r.Dir = g.addBystanders(g.DirFor(logname, 7, user, other), logname)
+				case 3: // registered (again) under the key the requester holds
+					r.Dir = g.addBystanders(g.DirFor(logname, core.Pick(g.R, 1, 2), holder, other), logname)
+				default: // ".pub" takes precedence over the bare file
+					r.Dir = g.addBystanders(g.DirFor(logname, core.Pick(g.R, 3, 8), user, other), logname)
+				}
+			}
+			switch g.R.Intn(6) {
+			case 0:
+				holder = other
+				r.Beh = Beh{Kind: BHonest, Key: other}
+			case 1:
+				holder = user
+				r.Beh = Beh{Kind: BHonest, Key: user}
+			case 2:
+				if k > 0 {
+					r.Beh = Beh{Kind: BReplay, Index: g.R.Intn(k + 1)}
+				}
+			}
+			runs = append(runs, r)
+		}
+		g.Emit("history/directory-changes", SessionSpec{Dir: dir, Store0: g.Store0(g.R.Intn(3)), Runs: runs, Reuse: g.R.Intn(4) > 0})
+	}
+
 	// handler lists with any accept / reject / panic pattern
 	for i := 0; i < c.N(80, 1500); i++ {
 		logname := LogNames[g.R.Intn(4)]
